@@ -76,7 +76,7 @@ class Prog:
                 a, b = self.part_of_ev(par), self.part_of_ev(i)
                 if a != b:
                     assert (a, b) in self.lat and dt >= self.lat[(a, b)], (i, dt)
-                    if (a, b) in self.override:
+                    if (a, b) in self.override and not self.real_dist:
                         assert dt == self.override[(a, b)]
                 if i in self.cont:
                     assert self.evs[par - 1][1] == g
@@ -113,8 +113,10 @@ class Prog:
         c = st["conf"]
         links = sorted(c["links"])
         lat = {tuple(k): v for k, v in dict(st["lat"]).items()} if st["lat"] else {}
+        ovl = sorted(tuple(x) for x in c.get("ovl", ()))      # links declaring a LatencyDistribution
         return Prog(ep=list(c["ep"]), np=c["np"], links=[tuple(x) for x in links], lat=lat, w=st["w"],
-                    end_t=c["endT"], evs=[(e["t"], e["tgt"], e["par"]) for e in st["ev"]])
+                    end_t=c["endT"], evs=[(e["t"], e["tgt"], e["par"]) for e in st["ev"]],
+                    override={l: lat[l] for l in ovl}, real_dist=bool(ovl))
 
 
 @dataclass
